@@ -186,6 +186,7 @@ def check_tool_paths(ctx, tool):
 
     n_eval = n_pol = n_req = n_file = n_default = n_sorted = 0
     bad_iter = bad_target = None
+    scope_tests = []
     colon_ok = sorted_ok = None
     for p in t.paths:
         rq = [c for c in p.conds if c.kind == 'test' and U(c.expr) == req]
@@ -303,6 +304,26 @@ def check_tool_paths(ctx, tool):
                    'which GenericCheck turns into the text `None` - that '
                    'matches a null target attribute, whereas credentials '
                    'without the key deny' % (U(ev.node.slice), why))
+        # ---- every scope entry of the token is looked at on its own: a
+        # path that reaches an evaluation without having tested one of them
+        # has decided the credentials from the other alone
+        if evals:
+            tested = set()
+            for cd in p.conds[:evals[0][1].nconds]:
+                if cd.kind != 'test':
+                    continue
+                x = en.expand(cd.expr)
+                for n_ in ast.walk(x):
+                    if isinstance(n_, ast.Call) and method_call(
+                            n_, 'get') and n_.args and is_const(
+                                n_.args[0]) and isinstance(
+                                    n_.args[0].value, str):
+                        tested.add(n_.args[0].value)
+                    if isinstance(n_, ast.Compare) and isinstance(
+                            n_.ops[0], ast.In) and is_const(n_.left) and \
+                            isinstance(n_.left.value, str):
+                        tested.add(n_.left.value)
+            scope_tests.append((p, tested, evals[0][1].line))
         # ---- the is_admin credential is the tool's own is_admin argument
         if evals and 'is_admin' in tool.params:
             cr0 = evals[0][1].node.args[1] if len(
@@ -455,6 +476,27 @@ def check_tool_paths(ctx, tool):
                         'not the token\'s own user / project (got %s)' % (
                             U(tgx)[:80] if tgx is not None else None))
     ctx.count(len(t.paths))
+    # the scope entries of the token (`project`, `system`, ...): those that
+    # some path tests before it evaluates
+    SCOPES = ('project', 'system', 'domain')
+    seen_scopes = sorted({k for _p, ts, _l in scope_tests for k in ts
+                          if k in SCOPES})
+    lacking = None
+    for p_, ts, ln in scope_tests:
+        miss_ = [k for k in seen_scopes if k not in ts]
+        if miss_ and lacking is None:
+            lacking = (p_, miss_, ln)
+    if seen_scopes:
+        ctx.ob('C19.CREDS', lacking is None, '%s:%d' % (
+            F, lacking[2]) if lacking else W, tool.qual,
+            'scope entries of the token looked at: %s' % seen_scopes,
+            'each one is tested on every path before a rule is evaluated'
+            if lacking is None else
+            'a path reaches the evaluation without looking at the token\'s '
+            '%s entry (path: %s): for a token that carries several scopes '
+            'the credentials differ from what the library derives, so '
+            'scope-dependent rules are reported wrongly' % (
+                lacking[1], lacking[0].cond_text()[-200:]))
     if n_pol == 0:
         ctx.ob('C19.POLARITY', False, W, tool.qual,
                'verdict independent of the result',
